@@ -63,6 +63,7 @@ type TaskScript struct {
 type ConsumerCfg struct {
 	Mode  string `json:"mode"`             // "both", "events", "errors", "none", "stop"
 	StopN int    `json:"stop_n,omitempty"` // mode "stop": stop reading after this many values
+	Nap   int    `json:"nap,omitempty"`    // per cent of the received events after which the consumer is away for three (simulated) seconds
 }
 
 // Cfg is the per-run configuration (the swarm).
